@@ -254,8 +254,58 @@ def _owner(v):
     return m.group(1) if m else None
 
 
+def loop_forms(ctx):
+    """Legacy 'begin loop over <list>': one group per choice, %(name)s / %(label)s in the children's cells filled in per choice.
+    Each copy's bind must carry the logic written for *its* choice (and nobody else's)."""
+    for i in range(48):
+        if not ctx.mine(i):
+            continue
+        rng = ctx.rng("loop", i)
+        n = rng.randint(2, 4)
+        names = rng.sample(["pit", "flush", "bucket", "none_", "vip", "other1"], n)
+        items = [(nm, f"Lbl {nm}") for nm in names]
+        logic = {}
+        for c in rng.sample(["constraint", "relevant", "required", "read_only", "calculation"], rng.randint(1, 3)):
+            logic[c] = rng.choice(["'%(name)s' != '' and ${avail} != 'x'", "selected(${avail}, '%(name)s')", "string-length('%(label)s') > 1", "'%(name)s.%(name)s' = 'q'"])
+        if "constraint" in logic and rng.random() < 0.6:
+            logic["constraint_message"] = rng.choice(["Too many %(label)s", "bad %(name)s"])
+        rows = ["| | select_multiple toilets | avail | Which | | | | | | |", "| | begin loop over toilets | lp | Loop | | | | | | |"]
+        cols = ["constraint", "relevant", "required", "read_only", "calculation", "constraint_message"]
+        rows.append("| | integer | number | How many %(label)s | " + " | ".join(logic.get(c, "") for c in cols) + " |")
+        rows.append("| | text | plainq | Plain | | | | | | |")
+        rows.append("| | end loop | | | | | | | | |")
+        md = "| survey |\n| | type | name | label | " + " | ".join(cols) + " |\n" + "\n".join(rows) + "\n| choices |\n| | list_name | name | label |\n" + \
+             "\n".join(f"| | toilets | {nm} | {lb} |" for nm, lb in items) + "\n"
+        o = drive.call_convert(md, file_type=".md")
+        ctx.case(sig=f"loop|{n}|{sorted(logic)}")
+        ctx.ctr("loop_forms")
+        if not o.ok:
+            ctx.viol("loop:rejected", f"a loop over a {n}-choice list was refused: {o.brief()}", {"klass": "loop", "md": md})
+            continue
+        p = xf.Parsed(o.xform)
+        binds = {b.get("nodeset"): p.attr_dict(b) for b in p.binds()}
+        attr_of = {"constraint": "constraint", "relevant": "relevant", "required": "required", "read_only": "readonly", "calculation": "calculate", "constraint_message": "jr:constraintMsg"}
+        for nm, lb in items:
+            got = binds.get(f"/data/lp/{nm}/number")
+            ctx.ctr("binds_compared")
+            if got is None:
+                ctx.viol("loop:bind-missing", f"no bind for /data/lp/{nm}/number", {"klass": "loop", "md": md})
+                continue
+            for c, text in logic.items():
+                want = text.replace("%(name)s", nm).replace("%(label)s", lb).replace("${avail}", " /data/avail ")
+                g = got.get(attr_of[c])
+                ctx.ctr("logic_cells_checked")
+                if g is None or " ".join(g.split()) != " ".join(want.split()):
+                    other = next((x for x, _ in items if x != nm and g and f"'{x}" in g), None)
+                    ctx.viol("loop:logic-of-another-copy" if other else "loop:logic-wrong", f"/data/lp/{nm}/number @{attr_of[c]} = {g!r}, written for this copy: {want!r}", {"klass": "loop", "md": md})
+            extra = set(got) - {attr_of[c] for c in logic} - {"nodeset", "type"}
+            if extra:
+                ctx.viol("loop:unexpected-attribute", f"/data/lp/{nm}/number carries {sorted(extra)}", {"klass": "loop", "md": md})
+
+
 def run_shard(ctx):
     pl = plan(ctx.tier, ctx.seed)
+    loop_forms(ctx)
     for i in range(pl["n"]):
         if not ctx.mine(i):
             continue
@@ -264,7 +314,7 @@ def run_shard(ctx):
         sheets = form.to_sheets()
         variant = "plain"
         if i % 3 == 1:
-            sheets, done, _ = spelling.apply(sheets, rng, n=(1, 4), only=["header_alias", "header_case", "col_perm"])
+            sheets, done, _ = spelling.apply(sheets, rng, n=(1, 4), only=["header_alias", "header_case", "col_perm", "type_alias", "type_alias"])
             variant = "aliases:" + "+".join(sorted({d.split(":")[0] for d in done}))
         fmt = "dict"
         if i % 5 == 4:
@@ -282,5 +332,8 @@ def run_shard(ctx):
 
 def replay(w):
     def chk(ctx, wit):
+        if wit.get("klass") == "loop":
+            loop_forms(ctx)
+            return
         check(ctx, common.form_from_witness(wit), "replay")
     return common.replay_with(PROP, w, chk)
